@@ -74,7 +74,48 @@ def compare(coll, res, step, scale, what):
             got = sum(vals) / len(vals)
             if abs(got - want) > TOL * max(1, abs(want), sc):
                 diffs.append("master curve at level %d: code %.12g specification %s" % (h, float(got), float(want)))
+    if not diffs and "relative" in what:
+        d = direct_find_offsets(coll, res, scale)
+        if d:
+            diffs.append(d)
     return "; ".join(diffs[:4]) if diffs else None
+
+
+def direct_find_offsets(coll, res, scale):
+    """find_offsets on the specification's own crossing table (kept levels of the main body), with the
+    (piece, value) pairs of every level and the levels themselves in arbitrary order, pieces named by
+    arbitrary increasing integers: the documented input is 'a mapping of head id to a sequence of
+    (series_id, time) pairs', nothing is promised about order"""
+    import spowtd.fit_offsets as fo
+    rng = random.Random(len(coll) * 7919 + sum(p["top"] for p in coll))
+    ids = sorted({pid for _, pid, _ in res["mapping"]})
+    name = {pid: 10 * (i + 1) + 3 for i, pid in enumerate(ids)}
+    levels = {}
+    for h, pid, t in res["mapping"]:
+        levels.setdefault(h, []).append((name[pid], float(t) * scale))
+    keys = list(levels)
+    rng.shuffle(keys)
+    mapping = {}
+    for h in keys:
+        lst = levels[h]
+        rng.shuffle(lst)
+        mapping[h] = lst
+    try:
+        sids, offs = fo.find_offsets(mapping)
+    except Exception as e:  # noqa
+        return "find_offsets on the shuffled crossing table raised %s: %s" % (type(e).__name__, e)
+    off = {sid: Fraction(float(o)) for sid, o in zip(sids, offs)}
+    anchor = name[min(ids)]
+    sc = Fraction(scale)
+    for pid, num, den in res["relative"]:
+        want = Fraction(num, den) * sc
+        if name[pid] not in off:
+            return "find_offsets left piece %d out" % pid
+        got = off[name[pid]] - off[anchor]
+        if abs(got - want) > TOL * max(1, abs(want), sc):
+            return "find_offsets on the crossing table in another order: offset of piece %d relative to %d is %.12g, optimum %s" % (
+                pid, min(ids), float(got), float(want))
+    return None
 
 
 def _worker(args):
@@ -101,12 +142,15 @@ def replay_curves(chk, label, consts, what, invs, procs=12):
         raise MachineryError("MCCurves emitted nothing")
     items = list(enumerate(emits))
     jobs = [(items[i:i + 250], what) for i in range(0, len(items), 250)]
+    ties = {}
     with mp.Pool(procs) as pool:
         for out in pool.imap_unordered(_worker, jobs):
             for idx, step, scale, d in out:
                 obj = emits[idx]
                 chk.count("evaluations")
                 if not obj["res"]["judged"]:
+                    if obj["res"].get("tie") and "members" in what:
+                        ties.setdefault(_coll_key(obj["coll"]), []).append((idx, obj["coll"], step, scale))
                     chk.count("not_judged_no_unique_main_body_of_two_pieces")
                     continue
                 chk.count("traces_validated_against_impl")
@@ -119,6 +163,65 @@ def replay_curves(chk, label, consts, what, invs, procs=12):
                         step, scale, json.dumps(obj["coll"]), d),
                         {"kind": "curves", "coll": obj["coll"], "res": obj["res"], "step": step, "scale": scale,
                          "what": list(what), "detail": d})
+    judge_ties(chk, ties, label)
+
+
+def _coll_key(coll):
+    return json.dumps(sorted(({"id": p["id"], "top": p["top"], "dir": p["dir"], "t": [v - p["t"][0] for v in p["t"]]}
+                              for p in coll), key=lambda p: p["id"]))
+
+
+def judge_ties(chk, ties, label):
+    """collections with several level-richest components: every presentation (order, axis shift) must give
+    the same members / relative offsets / master curve; judged by TraceShift.tla"""
+    import os
+    from .common import workdir, rm
+    cases = []
+    for key, pres in ties.items():
+        if len(pres) < 2:
+            continue
+        runs = []
+        step, scale = pres[0][2], pres[0][3]
+        for idx, coll, _, _ in pres[:8]:
+            run = dict(status="", flags="", storm="", rise="", pair="", inter="", recession_curve="", rise_curve="",
+                       recession_members="", rise_members="")
+            try:
+                ix, offs, mapping = run_real(coll, step, scale)
+                ids = [coll[i]["id"] for i in ix]
+                a = min(ids)
+                off = {i: float(o) for i, o in zip(ids, offs)}
+                run["status"] = "ok"
+                run["recession_members"] = json.dumps(sorted(ids))
+                run["recession_curve"] = json.dumps(sorted((i, round(off[i] - off[a], 6)) for i in ids))
+                run["rise_curve"] = json.dumps(sorted(int(h) for h in mapping))
+            except Exception as e:  # noqa
+                run["status"] = "%s" % type(e).__name__
+            runs.append(run)
+        cases.append({"id": len(cases), "runs": runs, "prop": "C08", "between": "presentations (order / axis shift) of the same pieces",
+                      "key": key})
+    if not cases:
+        return
+    wd = workdir("ties")
+    try:
+        path = os.path.join(wd, "cases.json")
+        json.dump(cases, open(path, "w"))
+        res = tlc.run("TraceShift", "SPECIFICATION Spec\nPOSTCONDITION AllConsumed\nCHECK_DEADLOCK FALSE\n", workers=1,
+                      env={"TRACE_FILE": path}, timeout=1200)
+    finally:
+        rm(wd)
+    chk.add_tlc(res, "TraceShift on %d tie collections (%s)" % (len(cases), label))
+    chk.count("tie_collections_judged_for_order_invariance", len(cases))
+    chk.count("traces_validated_against_impl", len(cases))
+    seen = set()
+    for f in res["fails"]:
+        if f["id"] in seen:
+            continue
+        seen.add(f["id"])
+        c = cases[f["id"]]
+        chk.violation("%s; pieces %s: first presentation %s, presentation %d %s" % (
+            f["clause"], c["key"], {k: v for k, v in c["runs"][0].items() if v}, f["stretch"],
+            {k: v for k, v in c["runs"][f["stretch"] - 1].items() if v}),
+            {"kind": "curves_tie", "pieces": json.loads(c["key"]), "clause": f["clause"]})
 
 
 def replay_file(chk, rp):
@@ -173,6 +276,10 @@ def c08(chk, tier):
     replay_curves(chk, "MCCurves views, 3 pieces, disconnected graphs",
                   C("{3}", "{2, 4, 5}" if q else "{2, 4, 5, 7}", "{1, 2}", "{2}" if q else "{1, 3}", views="TRUE"), what, invs)
     replay_curves(chk, "MCCurves views, 2 pieces", C("{2}", "{3, 4, 5}", "{1, 2, 3}", "{1, 3}", views="TRUE"), what, invs)
+    # two bodies of two pieces each with the same number of levels: WHICH body is placed is not determined,
+    # but it must not depend on the presentation (judged by TraceShift.tla across presentations)
+    replay_curves(chk, "MCCurves views, 4 short pieces (ties between bodies)",
+                  C("{4}", "{2, 5}" if q else "{2, 5, 8}", "{1}" if q else "{1, 2}", "{2}", views="TRUE"), what, invs)
     # rising and falling pieces mixed: a level can bridge two groups that already exist
     replay_curves(chk, "MCCurves mixed directions, 3-4 pieces",
                   C("{3, 4}" if q else "{4}", "{2, 4, 5}" if q else "{1, 2, 4, 5}", "{1, 2}" if q else "{1, 2, 3}", "{2}", "DirBoth"), what, invs)
